@@ -1,6 +1,6 @@
 """C08 — every run returns: termination and shutdown are live."""
 import os
-import vcommon as V, simrun as S
+import vcommon as V, simrun as S, progen
 from checks import simcommon as C
 
 
@@ -18,10 +18,33 @@ def run(c, replay):
     # are injected so that ranks and threads reach the shutdown at different moments
     mr_delays = [None, "10,-1,3000,1,1;1,1,20000,1,0", "10,-1,2000,2,0;1,0,20000,1,1", "1,1,30000,1,-1", "10,-1,5000,1,1", "11,-1,4000,1,0;1,1,10000,1,0",
                  "10,-1,3000,1,1;1,0,20000,1,0"]
-    progs2, runs2 = C.campaign(c, ctx, r, 6 if c.tier == "quick" else 60, 0, c.tier, ranks_list=(2, 3), delays=mr_delays, long_every=0,
-                               only_cfgs=[(2, 2, 300), (3, 1, 1000), (2, 0, 5000)], use_corpus=False, watchdog=20)
-    runs = runs + runs2
+    progs2, runs2 = C.campaign(c, ctx, r, 10 if c.tier == "quick" else 80, 0, c.tier, ranks_list=(2, 3), delays=mr_delays, long_every=0,
+                               only_cfgs=[(2, 2, 300), (3, 1, 1000), (2, 0, 5000)], use_corpus=False, watchdog=20,
+                               nets=(None, "300,15000,20,%d" % (c.seed + 21), None, "100,8000,10,%d" % (c.seed + 22)))      # messages and anti-messages still in flight at shutdown
+    # RootsimStop from a handler with messages and anti-messages still in flight between the ranks: the shutdown code has to receive them
+    progs3, runs3 = C.campaign(c, ctx, r, 8 if c.tier == "quick" else 60, 0, c.tier, variants=("stop",), ranks_list=(2,), long_every=0,
+                               only_cfgs=[(2, 2, 300), (1, 1, 100)], use_corpus=False, watchdog=20,
+                               nets=("300,15000,20,%d" % (c.seed + 31), "100,8000,10,%d" % (c.seed + 32), "0,5000,5,%d" % (c.seed + 33)))
+    runs = runs + runs2 + runs3
+    # the same, denser: busy programs (zero-delay events, many rollbacks and remote anti-messages) stopped in mid-run under long network delays
+    from concurrent.futures import ThreadPoolExecutor
+    sjobs = []
+    for k in range(16 if c.tier == "quick" else 200):
+        ps = progen.gen_program(r, lps=r.choice([4, 6, 8]), target=1 << 20, zero_ts=True)
+        ps["stopat"] = (r.below(ps["lps"]), r.range(20, 400))
+        pfs = os.path.join(ctx["sd"], "stopmr%d.txt" % k)
+        open(pfs, "w").write(progen.render(ps))
+        sjobs.append((ps, pfs, r.choice([1, 2, 2]), r.choice([1, 2, 4]), r.choice([50, 100, 300]), r.choice(["300,15000,20,%d", "1000,20000,50,%d", "100,8000,10,%d"]) % (c.seed * 3 + k)))
+
+    def stop_one(job):
+        ps, pfs, th, ck, gp, net = job
+        return job, S.run_sim(ctx["exe"], pfs, threads=th, ckpt=ck, gvt=gp, ranks=2, net=net, watchdog=15, timeout=45)
+    with ThreadPoolExecutor(3) as ex:
+        sres = list(ex.map(stop_one, sjobs))
+    for (ps, pfs, th, ck, gp, net), rs in sres:
+        runs.append(dict(prog=dict(p=ps, text=progen.render(ps), path=pfs, variant="stop-busy", tend=0, idx=0), cfg=(th, ck, gp, 2), res=rs, trace=[], stats=None, delay=None, net=net))
     ok, hangs, byvar = 0, {}, {}
+    hang_examples = []
     for run_ in runs:
         res, pr = run_["res"], run_["prog"]
         if res.sanitizer:
@@ -39,10 +62,10 @@ def run(c, replay):
             continue
         sig = S.classify_hang(res.hang) if res.hang else "hang:no-watchdog-output"
         hangs[sig] = hangs.get(sig, 0) + 1
+        hang_examples.append(dict(signature=sig, stages=res.hang, config=C.describe(run_)))
         c.violation(sig, dict(kind="property", what="RootsimRun did not return", stages=res.hang, program=pr["text"],
                               config=C.describe(run_)), True)
     # ---- probe of the layouts with more ranks than LPs (a rank hosting no LP)
-    import progen
     p1 = progen.gen_program(V.Rng(c.seed + 5), lps=1, target=5)
     pf1 = os.path.join(ctx["sd"], "onelp.txt")
     open(pf1, "w").write(progen.render(p1))
@@ -74,7 +97,7 @@ def run(c, replay):
                                  config=dict(threads=th, checkpoint_interval=2, gvt_period_us=gp, cmd=rest.cmd + "  with VERIF_KEEP_TICKING=1")), True)
     c.cov["never_ending_model_probes"] = nprobe
     C.finish(c, ctx)
-    c.cov.update(evaluations=len(runs), distinct_nontrivial=ok, runs_returned=ok, hang_signatures=hangs, by_variant=byvar,
+    c.cov.update(evaluations=len(runs), distinct_nontrivial=ok, runs_returned=ok, hang_signatures=hangs, hang_examples=hang_examples[:8], by_variant=byvar,
                  rule="interpreter programs ended by predicate, termination time or RootsimStop from a handler x thread counts 1..16 (more threads than "
                       "LPs included; plus 2 and 3 MPI ranks x 2-3 threads with injected preemptions around the shutdown barrier and the main loop) (more threads than "
                       "LPs included) x GVT periods down to 0; every run must return with one LP_FINI per LP; non-trivial = returning run",
